@@ -1,6 +1,7 @@
 package main
 
 import (
+	"regexp"
 	"encoding/json"
 	"flag"
 	"fmt"
@@ -311,7 +312,16 @@ func (e *Engine) report(prop, tier string, seed int, results []*FuncResult, obls
 	}
 	// obligations that were discharged on the unchanged tree but are not generated any more
 	if !updateBaseline {
+		// compared at clause level: the same clause checked at fewer return statements, loop paths
+		// or call occurrences than before (a return merged, a call removed) is not a loss
+		stems := map[string]bool{}
+		for n := range names {
+			stems[oblStem(n)] = true
+		}
 		for _, n := range base.Obligations[prop] {
+			if !names[n] && stems[oblStem(n)] {
+				continue
+			}
 			if !names[n] {
 				fn := strings.SplitN(n, "/", 2)[0]
 				und := false
@@ -506,4 +516,24 @@ func (e *Engine) writeReplay(dir, prop string, o *Obligation, rep *Report) (stri
 	b, _ := json.MarshalIndent(r, "", " ")
 	os.WriteFile(path, b, 0o644)
 	return path, suffix
+}
+
+var stemRes = []*regexp.Regexp{
+	regexp.MustCompile(`~\d+$`),
+	regexp.MustCompile(`@(ret|p|e)\d+$`),
+	regexp.MustCompile(`#\d+$`),
+	regexp.MustCompile(`/(atcall|call)\d+:`),
+	regexp.MustCompile(`/inl:[^/]*`),
+}
+
+// oblStem maps an obligation name to the clause it checks, forgetting at which return statement,
+// loop path or call occurrence: f/post#2@ret3 -> f/post#2, f/atcall1:Add#0 -> f/atcall:Add, ...
+func oblStem(n string) string {
+	n = stemRes[0].ReplaceAllString(n, "")
+	n = stemRes[1].ReplaceAllString(n, "")
+	if strings.Contains(n, "/safety/") || strings.Contains(n, "/atcall") || strings.Contains(n, "/order/") || strings.Contains(n, "/lock/") {
+		n = stemRes[2].ReplaceAllString(n, "")
+	}
+	n = stemRes[3].ReplaceAllString(n, "/$1:")
+	return n
 }
